@@ -147,4 +147,25 @@ def Graph.deltaConformityW (dg : Graph) (start delta : Int) (alphas : List (Nat 
         .ok (some (alphas.map (fun a => (a.1, nodes.map (fun u => (u, nodeScoreW g sp ptype a.2 u))))))
     | _, _ => .ok none
 
+/-- the nested-dictionary accumulation of `sliding_delta_conformity` over ANY per-instant function `f` (the call
+    `delta_conformity(dg, t, delta, …)` with whatever further arguments): `Graph.slidingDeltaConformity` is the instance
+    `f t = dg.deltaConformity t delta alphas ptype` (`slidingDeltaConformity_eq_slidingOf`) -/
+def slidingOf (tids : List Int) (delta : Int) (f : Int → Except Err (Option (List (Nat × List (Node × Rat))))) :
+    Except Err (List (Nat × List (Node × List (Int × Rat)))) :=
+  match tids.getLast? with
+  | none => .ok []
+  | some lastId =>
+    (tids.filter (fun t => t + delta < lastId)).foldlM (fun acc t =>
+      match f t with
+      | .error e => .error e
+      | .ok none => .ok acc
+      | .ok (some r) =>
+        .ok (r.foldl (fun (acc : List (Nat × List (Node × List (Int × Rat)))) (ar : Nat × List (Node × Rat)) =>
+          let cur := ((acc.find? (fun e => e.1 == ar.1)).map (·.2)).getD []
+          let cur' := ar.2.foldl (fun (c : List (Node × List (Int × Rat))) (nv : Node × Rat) =>
+            if c.any (fun e => e.1 == nv.1) then c.map (fun e => if e.1 == nv.1 then (e.1, e.2 ++ [(t + delta, nv.2)]) else e)
+            else c ++ [(nv.1, [(t + delta, nv.2)])]) cur
+          if acc.any (fun e => e.1 == ar.1) then acc.map (fun e => if e.1 == ar.1 then (e.1, cur') else e)
+          else acc ++ [(ar.1, cur')]) acc)) []
+
 end Dynetx
